@@ -47,8 +47,9 @@ def sh(cmd, cwd=None, timeout=None, env=None, input=None):
 
 
 class Ctx:
-    def __init__(self, prop, tier, seed):
+    def __init__(self, prop, tier, seed, keep_replays=False):
         self.prop = prop
+        self.keep_replays = keep_replays
         self.tier = tier
         self.seed = seed
         self.t0 = time.time()
@@ -63,7 +64,7 @@ class Ctx:
         self.broken = []          # names of theorems / correspondence streams that no longer check
         self.level = "proof"
         BUILD.mkdir(parents=True, exist_ok=True)
-        if REPLAYS.exists():
+        if REPLAYS.exists() and not keep_replays:
             for f in REPLAYS.glob(f"{prop}-*.txt"):
                 f.unlink()
 
@@ -96,7 +97,8 @@ class Ctx:
         ev = {"property_id": self.prop, "tier": self.tier, "seed": self.seed, "level": self.level,
               "coverage": cov, "assumptions": self.assumptions, "wall_s": round(wall, 2),
               "violations": len(self.violations), "notes": self.notes}
-        (EVIDENCE / f"{self.prop}.json").write_text(json.dumps(ev, indent=1) + "\n")
+        if not self.keep_replays:      # a --replay run does not describe a check run: keep the evidence
+            (EVIDENCE / f"{self.prop}.json").write_text(json.dumps(ev, indent=1) + "\n")
         for k in self.known_hits:
             print(k)
         for v in self.violations:
